@@ -578,6 +578,7 @@ type FrameState struct {
 	id        int
 	loopMeas  map[*ssa.BasicBlock][]string // measure at loop head
 	inLoop    map[*ssa.BasicBlock]bool
+	loopEvents map[*ssa.BasicBlock]int
 	recvLabel string
 }
 
@@ -658,6 +659,12 @@ func (p *Path) clone(newID int) *Path {
 			g.loopMeas[k] = v
 		}
 		g.inLoop = make(map[*ssa.BasicBlock]bool, len(f.inLoop))
+		if f.loopEvents != nil {
+			g.loopEvents = make(map[*ssa.BasicBlock]int, len(f.loopEvents))
+			for k, v := range f.loopEvents {
+				g.loopEvents[k] = v
+			}
+		}
 		for k, v := range f.inLoop {
 			g.inLoop[k] = v
 		}
